@@ -80,15 +80,16 @@ class Builder:
         self.rec = rec
         self.memo = {}
 
-    def callback(self, cb):
+    def callback(self, cb, recv=None):
         ghost, rec = self.ghost, self.rec
         eff = cb.effect
+        pre = (recv,) if getattr(cb, 'with_self', False) and recv is not None else ()
 
         def call(*args, **kw):
             if eff is None:
                 return None
             try:
-                return eff(ghost, *args, **kw)
+                return eff(ghost, *pre, *args, **kw)
             except AssertionError as e:
                 tb = traceback.extract_tb(e.__traceback__)[-1]
                 rec.violations.append(f'ghost assertion of {cb.name} failed at {tb.name}:{tb.lineno}: {tb.line}')
@@ -175,7 +176,7 @@ class Builder:
         if mdl is not None:
             for mname, m in mdl.methods.items():
                 if isinstance(m, C.Callback):
-                    object.__setattr__(obj, mname, self.callback(m))
+                    object.__setattr__(obj, mname, self.callback(m, recv=obj))
         return obj
 
     def build_map(self, m, ft):
